@@ -337,5 +337,49 @@ def check(case):
         classes.append("file-level")
         if lowbetter:
             classes.append("file-level-lower-is-better")
+    if case["file_level"] and algo in Q_ALGOS and not has_ties:
+        # the alternative q-value estimators inside the pipeline: at every level the q-value column is the estimator's
+        # output for exactly the rows of that level
+        m = min(n, 600)
+        sc, tg = scores[:m], targets[:m]
+        if tg.sum() < 50 or (~tg).sum() < 50:
+            raise Rejected("too few PSMs of one class for the file-level part")
+        config_inject.install_pep_stub()
+        rng = np.random.default_rng(case["seed"] + 5)
+        pool = datagen.peptide_pool(rng, max(5, m // 2))
+        pep_idx = rng.integers(0, len(pool), m)
+        with scratch_dir() as tmp:
+            idx = np.arange(m)
+            df = pd.DataFrame({
+                "SpecId": [f"id{i}" for i in idx], "Label": np.where(tg, 1, -1), "ScanNr": idx + 1, "ExpMass": 500.0 + idx * 0.5, "f0": sc,
+                "Peptide": [pool[int(pep_idx[i])] + ("" if tg[i] else "X") for i in idx], "Proteins": ["p"] * m})
+            meta = {"key_cols": ["ScanNr", "ExpMass"], "features": ["f0"], "levels": ["Peptide"]}
+            path = tmp / "x.pin"
+            datagen.write_table(df, path)
+            out = tmp / "out"
+            out.mkdir()
+            guarded(mokapot.assign_confidence, [datagen.build_ondisk(path, df, meta)], max_workers=1, scores=[sc.astype(float).copy()], descs=[True],
+                    eval_fdr=0.05, dest_dir=out, prefixes=[None], decoys=True, peps_algorithm="verif_stub", qvalue_algorithm=algo,
+                    allowed=ALLOWED, sig="assign_confidence")
+            for level in ("psms", "peptides"):
+                tf = pd.read_csv(out / f"targets.{level}", sep="\t", float_precision="round_trip")
+                dfl = pd.read_csv(out / f"decoys.{level}", sep="\t", float_precision="round_trip")
+                allr = pd.concat([tf.assign(_t=True), dfl.assign(_t=False)]).sort_values("score", ascending=False, kind="stable")
+                ls, lt = allr["score"].values.astype(float), allr["_t"].values.astype(bool)
+                if lt.sum() < 30 or (~lt).sum() < 30 or len(np.unique(ls)) < len(ls):
+                    continue
+                try:
+                    refq = np.asarray(guarded(f, ls.copy(), lt.copy(), allowed=ALLOWED, sig=algo), dtype=float)
+                except Rejected:
+                    continue
+                got = allr["q-value"].values.astype(float)
+                fin = np.isfinite(refq) & np.isfinite(got)
+                tolq = 1e-3 if algo == "from_peps" else 1e-9
+                bad = (np.abs(got - refq) > tolq + 1e-9 * np.abs(refq)) & fin
+                require(bad.mean() <= (0.02 if algo == "from_peps" else 0.0) and bool(np.all(np.isfinite(refq) == np.isfinite(got))), "file-qvalue-not-own",
+                        f"{level} level, qvalue_algorithm={algo}: {int(bad.sum())} of {len(got)} rows carry a q-value that is not the estimator's "
+                        f"value for the rows of this level (e.g. {got[bad][:3].tolist()} vs {refq[bad][:3].tolist()})")
+                counters["file_qvalues_checked"] = counters.get("file_qvalues_checked", 0) + len(got)
+        classes.append("file-level-q-estimator")
     sorted_in = bool(np.all(np.diff(scores) <= 0))
     return {"nontrivial": case["nt"] >= 50 and case["nd"] >= 50 and not sorted_in, "classes": classes, "counters": counters}
